@@ -401,8 +401,16 @@ class FakeNumpy:
         n = cond.shape[0]
         k = ctx().atoms.new('k', free=True, upper=[n], origin='np.where: number of entries kept')
         idx = Arr([k], None, 'int', None, {'index_of': cond, 'where': cond.tags.get('expr')}, 'where')
-        ctx().event('where', cond=cond, index=idx)
+        ctx().event('where', cond=cond, index=idx, env=_simple_env())
         return (idx,)
+
+    @staticmethod
+    def count_nonzero(cond, *a, **kw):
+        cond = as_arr(cond)
+        n = cond.size
+        k = ctx().atoms.new('k', free=True, upper=[n], origin='np.count_nonzero: number of entries kept')
+        ctx().event('where', cond=cond, index=None, count=k, env=_simple_env())
+        return k
 
     @staticmethod
     def argsort(a, *x, **k):
@@ -425,6 +433,13 @@ class FakeNumpy:
     @staticmethod
     def binary_repr(*a, **k):
         raise AnalysisError('np.binary_repr has no model')
+
+
+def _simple_env():
+    it = A.CTX.interp
+    if it is None or not it.stack:
+        return {}
+    return {k: v for k, v in it.stack[-1].env.items() if isinstance(v, (bool, int, float, str, type(None)))}
 
 
 def concat(parts, axis):
